@@ -159,8 +159,16 @@ def mk_universe(u):
     return DynamicUniverse(real)
 
 
+FILE_ORDER = [None]
+
+
 def write_csvs(d, assets):
     for name, rows in assets.items():
+        # the order of the rows in the FILE is free (the loader sorts): newest first, or scrambled
+        if FILE_ORDER[0] == 'desc':
+            rows = list(reversed(rows))
+        elif FILE_ORDER[0] == 'scrambled':
+            rows = sorted(rows, key=lambda r: (r[0] * 7919) % 101)
         with open(os.path.join(d, name + '.csv'), 'w') as f:
             f.write('Date,Open,High,Low,Close,Adj Close,Volume\n')
             for day, o, c, a in rows:
@@ -205,6 +213,7 @@ def run_session(c, shared_ds=None, reuse_universe=False, reuse_signals=False):
     universe = LAST['universe'] if (reuse_universe and 'universe' in LAST) else mk_universe(cfg['universe'])
     LAST['universe'] = universe
     m = c['market']
+    FILE_ORDER[0] = m.get('file_order')
     ds = None
     try:
         if m['kind'] == 'table':
@@ -280,6 +289,8 @@ def run_session(c, shared_ds=None, reuse_universe=False, reuse_signals=False):
                                       rebalance=rebalance, long_only=cfg['long_only'], fee_model=mk_fee(cfg['fee']),
                                       burn_in_dt=(None if cfg.get('burn') is None else ts(cfg['burn'])),
                                       data_handler=dh, **kw)
+        if cfg.get('sched_thin'):
+            sess.rebalance_schedule = sorted(sess.rebalance_schedule)[::2]
         if cfg.get('extra_portfolio'):
             # the account also holds a second, idle sub-portfolio with cash of its own (the equity curve is the ACCOUNT's equity)
             sess.broker.subscribe_funds_to_account(EXTRA_EQUITY)
